@@ -18,6 +18,9 @@ Ltac unfold_kernels := cbv beta delta [
   gen_gc_changed_encoded gen_gc_changed_string gen_gc_changed_plain gen_gc_index
   gen_gb_fast_test gen_gb_fast_start gen_gb_insert_pos gen_gb_insert_val gen_gb_last_bound
   gen_gb_key_index gen_gb_slice_lo gen_gb_slice_hi gen_join_key_field gen_join_payload_field
+  gen_win_l_f_str gen_win_l_w_str gen_win_r_f_str gen_win_r_w_str gen_win_lo_str gen_win_hi_str
+  gen_win_l_f_mem gen_win_l_w_mem gen_win_r_f_mem gen_win_r_w_mem gen_win_lo_mem gen_win_hi_mem
+  gen_clip_start gen_clip_stop gen_ceb_max gen_ceb_cond gen_ceb_nblocks gen_ceb_lo gen_ceb_hi m_win_flanks clip_iv m_nblocks max_block
   m_ce_cond m_cl_cond m_cl_after m_br_cond m_gb_fast_test m_node_cached m_node_pull
   sum_and_n pair_add] zeta.
 Ltac bool_cases := repeat match goal with
@@ -132,4 +135,20 @@ Proof. intros. repeat split; reflexivity. Qed.
 Lemma b_stranded_forward : forall row,
   gen_stranded_forward_symbol = "+"%string /\ gen_stranded_forward_symbol_mem = "+"%string
   /\ orient 0 row = row /\ orient 1 row = rev row /\ orient 2 row = rev row.
+Proof. intros. repeat split; reflexivity. Qed.
+
+(* ---------- get_windows keyword forms (streamed and in-memory), clip, blocked counting ---------- *)
+Lemma b_win_flanks : forall f w p l r,
+  (gen_win_l_f_str f, gen_win_r_f_str f) = m_win_flanks (WFlank f)
+  /\ (gen_win_l_w_str w, gen_win_r_w_str w) = m_win_flanks (WSize w)
+  /\ (gen_win_l_f_mem f, gen_win_r_f_mem f) = m_win_flanks (WFlank f)
+  /\ (gen_win_l_w_mem w, gen_win_r_w_mem w) = m_win_flanks (WSize w)
+  /\ gen_win_lo_str p l r = p - l /\ gen_win_hi_str p l r = p + r
+  /\ gen_win_lo_mem p l r = p - l /\ gen_win_hi_mem p l r = p + r.
+Proof. intros. repeat split; reflexivity. Qed.
+Lemma b_clip : forall size (i : iv), (gen_clip_start (fst i) size, gen_clip_stop (snd i) size) = clip_iv size i.
+Proof. bridge. Qed.
+Lemma b_count_blocks : forall n M i,
+  gen_ceb_max = max_block /\ gen_ceb_cond n M = (n >? M) /\ gen_ceb_nblocks n M = m_nblocks n M
+  /\ gen_ceb_lo i M = i * M /\ gen_ceb_hi i M = (i + 1) * M.
 Proof. intros. repeat split; reflexivity. Qed.
